@@ -9,7 +9,7 @@ W=$(mktemp -d /tmp/confirm-XXXXXX)
 git -C /repo worktree add --detach "$W/wt" HEAD -q || exit 2
 trap 'git -C /repo worktree remove --force "$W/wt" 2>/dev/null; rm -rf "$W"' EXIT
 cd "$W/wt"
-cp "$D/$DEMO" "$TGT/" || exit 2
+mkdir -p "$TGT"; cp "$D/$DEMO" "$TGT/" || exit 2
 echo "== clean tree: demo"; go test -count=1 -run "$RUN" "./$TGT/" 2>&1 | tail -3
 CLEAN=$?
 git apply "$D/patch.diff" || { echo "patch does not apply"; exit 2; }
